@@ -137,7 +137,7 @@ func runLock(repo, outDir string) int {
 		}
 		for _, p := range fc.Props {
 			for _, o := range t.obls {
-				if o.Kind == "safety" {
+				if o.Kind == "safety" || o.Kind == "cover" {
 					continue // safety sites move with harmless edits; their count is not locked
 				}
 				lf[p] = append(lf[p], o.Name)
